@@ -13,12 +13,14 @@ import (
 // their argument (no receiver, no documented state), so "for every byte string each Unmarshal function returns
 // without panicking ..." holds for a call whatever other calls are in progress, as long as nobody writes the input.
 // Shared=false: input i belongs to goroutine i mod G. Shared=true: every goroutine decodes every input from the SAME
-// memory (read-only), each starting at a different place of the list.
+// memory (read-only), each starting at a different place of the list. Rot: every goroutine goes through the Unmarshal
+// functions starting with function number Rot of decoders16 (so the first call of all goroutines can be any of them).
 type Case16C struct {
 	Ins    []Case16 `json:"ins"`
 	G      int      `json:"g"`
 	Shared bool     `json:"shared,omitempty"`
 	P1     bool     `json:"p1,omitempty"` // run with GOMAXPROCS(1)
+	Rot    int      `json:"rot,omitempty"`
 }
 
 // Hash identifies the case.
@@ -77,6 +79,10 @@ type res16 struct {
 // turned into a violation of C16 by the driver.
 func Run16C(c Case16C) (info Info16C, v *vstat.Violation) {
 	G := min(max(c.G, 1), 64)
+	rot := c.Rot % len(decoders16)
+	if rot < 0 {
+		rot += len(decoders16)
+	}
 	info.G, info.Inputs, info.Shared, info.P1 = G, len(c.Ins), c.Shared, c.P1
 	ins := make([][]byte, len(c.Ins))
 	for i, ci := range c.Ins {
@@ -117,7 +123,9 @@ func Run16C(c Case16C) (info Info16C, v *vstat.Violation) {
 			form := fmt.Sprintf("goroutine %d of %d", g+1, G)
 			<-start
 			for _, i := range work[g] {
-				for di, d := range decoders16 {
+				for k := range decoders16 {
+					di := (k + rot) % len(decoders16)
+					d := decoders16[di]
 					o, v := check16(d, ins[i], form)
 					if v != nil {
 						if viol[g] == nil {
